@@ -6,8 +6,11 @@
    transform.GetExtendedSpatialIdsWithinRadiusOfLine, for EVERY answer of the three oracles
      line    = shape.GetExtendedSpatialIdsOnLine(start, end, hZoom, vZoom)            (C06; Err for nil points / invalid zooms)
      fit id  = transform.FitClearanceAroundExtendedSpatialID(id, radius)             (closest_go / geodesy_go)
-     measure = one round of the measuring loop: vertex call (error?) and `dist < radius`
-   and for every Go map order (ord_n, ord_u, ord_q: any permutations).
+     measure st id = one round of the measuring loop: vertex call (error?) and `dist < radius`, together with the next state of the
+               ONE closest.Measure that the loop reuses (its search starts from what the previous candidate left behind); after fix
+               915e48e the loop runs over the SORTED candidates
+   and for every Go map order (ord_n, ord_u, ord_q: any permutations).  All theorems are about this MODEL; it is tied to the Go code by
+   differential execution. "nil point / invalid zoom => the line call is an error" is C06_api_errors, not re-proved here.
    What is NOT a theorem (validated on every run by the harness): that the distance filter keeps no voxel whose footprint is farther from
    the segment than the radius (independent WGS84 chord distance with a documented margin), and that the fit terminates (D16). *)
 From Coq Require Import ZArith String List Bool Permutation Floats.
@@ -21,56 +24,66 @@ Section C14.
   Hypothesis Pu : forall l, Permutation (ord_u l) l.
   Hypothesis Pq : forall l, Permutation (ord_q l) l.
   Variable fit : string -> result (Z * Z).
-  Variable measure : string -> result bool.
-  Let run := corridor ord_n ord_u ord_q fit measure.
+  Variable St : Type.
+  Variable st0 : St.
+  Variable measure : St -> string -> result (bool * St).
+  Let run := corridor ord_n ord_u ord_q fit St st0 measure.
 
   (* the returned IDs are duplicate-free *)
   Theorem C14_no_duplicates : forall line skip r, run line skip = Ok r -> NoDup r.
-  Proof. exact (corridor_NoDup ord_n ord_u ord_q Pn Pu Pq fit measure). Qed.
+  Proof. exact (corridor_NoDup ord_n ord_u ord_q Pn Pu Pq fit St st0 measure). Qed.
 
   (* every ID of the line itself is returned, in both modes *)
   Theorem C14_contains_line : forall L skip r, run (Ok L) skip = Ok r -> forall s, In s L -> In s r.
-  Proof. exact (corridor_contains_line ord_n ord_u ord_q Pn Pu Pq fit measure). Qed.
+  Proof. exact (corridor_contains_line ord_n ord_u ord_q Pn Pu Pq fit St st0 measure). Qed.
 
   (* exact membership: the line, plus the modular shifts of line voxels by the non-zero offsets of the (H,V) box that are not on the line
-     and (measured mode) pass the filter; (H,V) are the layer counts the fit reports for the first line ID in Go's string order *)
+     and (measured mode) are in `kept`, the list the stateful measuring loop returns on the SORTED candidates (box minus line);
+     (H,V) are the layer counts the fit reports for the first line ID in Go's string order *)
   Theorem C14_members : forall l skip r, okids l -> run (Ok (map print_eid l)) skip = Ok r ->
-    exists p H V, pick (map print_eid l) = Some p /\ fit p = Ok (H, V) /\ 0 <= H /\ 0 <= V /\
+    exists p H V kept, pick (map print_eid l) = Some p /\ fit p = Ok (H, V) /\ 0 <= H /\ 0 <= V /\
+      (skip = false -> exists cand,
+         (forall s, In s cand <-> (exists i o, In i l /\ In o (stencil H V) /\ s = print_eid (shift_o i o)) /\ ~ In s (map print_eid l)) /\
+         measure_all St measure st0 (sort_strings cand) = Ok kept) /\
       forall s, In s r <->
         In s (map print_eid l) \/
         ((exists i o, In i l /\ In o (stencil H V) /\ s = print_eid (shift_o i o)) /\ ~ In s (map print_eid l) /\
-         (skip = true \/ near measure s = true)).
-  Proof. exact (corridor_members ord_n ord_u ord_q Pn Pu Pq fit measure). Qed.
+         (skip = true \/ In s kept)).
+  Proof. exact (corridor_members ord_n ord_u ord_q Pn Pu Pq fit St st0 measure). Qed.
 
   (* every additional ID lies within the layer counts reported for a voxel of that line: |dx|,|dy| <= H, |dv| <= V around SOME line voxel *)
   Theorem C14_added_within_reported_box : forall l skip r, okids l -> run (Ok (map print_eid l)) skip = Ok r ->
     exists p H V, pick (map print_eid l) = Some p /\ In p (map print_eid l) /\ fit p = Ok (H, V) /\
       forall s, In s r -> In s (map print_eid l) \/
         exists i dx dy dv, In i l /\ - H <= dx <= H /\ - H <= dy <= H /\ - V <= dv <= V /\ s = print_eid (shift_spec i dx dy dv).
-  Proof. exact (corridor_added_in_box ord_n ord_u ord_q Pn Pu Pq fit measure). Qed.
+  Proof. exact (corridor_added_in_box ord_n ord_u ord_q Pn Pu Pq fit St st0 measure). Qed.
 
-  (* all returned IDs are at the zooms of the line's IDs (the requested zooms, C06) *)
+  (* all returned IDs are at the zooms of the line's IDs — which are the requested zooms by C06 (Line.line_api prints them); the run-time
+     checker compares with the requested zooms themselves *)
   Theorem C14_all_at_requested_zooms : forall l h v skip r, okids l -> (forall i, In i l -> eh i = h /\ ev i = v) ->
     run (Ok (map print_eid l)) skip = Ok r -> forall s, In s r -> exists j, s = print_eid j /\ eh j = h /\ ev j = v.
-  Proof. exact (corridor_zooms ord_n ord_u ord_q Pn Pu Pq fit measure). Qed.
+  Proof. exact (corridor_zooms ord_n ord_u ord_q Pn Pu Pq fit St st0 measure). Qed.
 
   (* layer counts (0,0) give exactly the line's IDs *)
   Theorem C14_zero_layers_exactly_line : forall L p skip r, pick L = Some p -> fit p = Ok (0, 0) -> run (Ok L) skip = Ok r ->
     NoDup r /\ forall s, In s r <-> In s L.
-  Proof. exact (corridor_zero_layers ord_n ord_u ord_q Pn Pu Pq fit measure). Qed.
+  Proof. exact (corridor_zero_layers ord_n ord_u ord_q Pn Pu Pq fit St st0 measure). Qed.
 
   (* with the measurement enabled the result is a subset of the result with it skipped (which then succeeds too) *)
   Theorem C14_measured_subset_skipped : forall line r, run line false = Ok r ->
     exists r', run line true = Ok r' /\ forall s, In s r -> In s r'.
-  Proof. exact (measured_subset_skipped ord_n ord_u ord_q Pn Pu Pq fit measure). Qed.
+  Proof. exact (measured_subset_skipped ord_n ord_u ord_q Pn Pu Pq fit St st0 measure). Qed.
 
-  (* error paths: the line call fails (nil point, invalid zoom: C06_api_errors); the fit fails; the fit reports a negative layer count *)
+  (* error paths, by unfolding the model: the line call fails (nil point / invalid zoom: C06_api_errors); the fit fails *)
   Theorem C14_line_error : forall skip, run Err skip = Err.
-  Proof. exact (corridor_line_error ord_n ord_u ord_q fit measure). Qed.
+  Proof. exact (corridor_line_error ord_n ord_u ord_q fit St st0 measure). Qed.
   Theorem C14_fit_error : forall L p skip, pick L = Some p -> fit p = Err -> run (Ok L) skip = Err.
-  Proof. exact (corridor_fit_error ord_n ord_u ord_q fit measure). Qed.
-  Theorem C14_negative_layers_error : forall L p H V skip, pick L = Some p -> fit p = Ok (H, V) -> H < 0 \/ V < 0 -> run (Ok L) skip = Err.
-  Proof. exact (corridor_negative_layers ord_n ord_u ord_q fit measure). Qed.
+  Proof. exact (corridor_fit_error ord_n ord_u ord_q fit St st0 measure). Qed.
+  (* the result theorems above are not vacuous: a line of well-formed IDs, non-negative layer counts and a measuring loop that never
+     fails give a result *)
+  Theorem C14_succeeds : forall l p H V skip, okids l -> pick (map print_eid l) = Some p -> fit p = Ok (H, V) -> 0 <= H -> 0 <= V ->
+    (forall st id, measure st id <> Err) -> exists r, run (Ok (map print_eid l)) skip = Ok r.
+  Proof. exact (corridor_succeeds ord_n ord_u ord_q fit St st0 measure). Qed.
 End C14.
 Print Assumptions C14_no_duplicates.
 Print Assumptions C14_contains_line.
@@ -81,32 +94,35 @@ Print Assumptions C14_zero_layers_exactly_line.
 Print Assumptions C14_measured_subset_skipped.
 Print Assumptions C14_line_error.
 Print Assumptions C14_fit_error.
-Print Assumptions C14_negative_layers_error.
+Print Assumptions C14_succeeds.
 
 (* a negative radius is an error whatever the geometry (dx, dy: the distances the fit measures), for every line and both modes *)
-Theorem C14_negative_radius_error : forall ord_n ord_u ord_q fuel dx dy c measure line skip,
-  (c <? 0)%float = true -> corridor ord_n ord_u ord_q (fit_of_model fuel dx dy c) measure line skip = Err.
+Theorem C14_negative_radius_error : forall ord_n ord_u ord_q fuel dx dy c St st0 measure line skip,
+  (c <? 0)%float = true -> corridor ord_n ord_u ord_q (fit_of_model fuel dx dy c) St st0 measure line skip = Err.
 Proof. exact corridor_negative_radius. Qed.
 Print Assumptions C14_negative_radius_error.
 
 (* radius 0: the first iteration of each fitting loop stops (0 > d is false for a distance that is not negative), the fit reports (0,0)
-   and the result is exactly the line — for every line of valid IDs, every geometry with non-negative distances, both modes *)
-Theorem C14_radius_zero_exactly_line : forall ord_n ord_u ord_q fuel dx dy measure l skip r,
+   and the result is exactly the line — for every line of valid IDs (altitude index within -2^v .. 2^v - 1), every geometry with
+   non-negative first distances, both modes; radius is the literal +0 (the run-time check treats -0 alike: Go's `0 > d` and `-0 > d` agree) *)
+Theorem C14_radius_zero_exactly_line : forall ord_n ord_u ord_q fuel dx dy St st0 measure l skip r,
   (forall l, Permutation (ord_n l) l) -> (forall l, Permutation (ord_u l) l) -> (forall l, Permutation (ord_q l) l) ->
   valids l ->
   (forall id, (dx id 1%Z <? 0)%float = false) -> (forall id, (dy id 1%Z <? 0)%float = false) ->
-  corridor ord_n ord_u ord_q (fit_of_model (S fuel) dx dy 0%float) measure (Ok (map print_eid l)) skip = Ok r ->
+  corridor ord_n ord_u ord_q (fit_of_model (S fuel) dx dy 0%float) St st0 measure (Ok (map print_eid l)) skip = Ok r ->
   NoDup r /\ forall s, In s r <-> In s (map print_eid l).
 Proof. exact corridor_radius_zero. Qed.
 Print Assumptions C14_radius_zero_exactly_line.
 
-(* the result depends neither on any map order nor on the order in which the line's IDs arrive (C16; D15 after fix 70c64b2):
-   same error flag, and the two ID lists are permutations of each other *)
-Theorem C14_order_blind : forall ord_n ord_u ord_q ord_n' ord_u' ord_q' fit measure L L' skip,
+(* the result depends neither on any map order nor on the order in which the line's IDs arrive (C16; D15 after fixes 70c64b2, 915e48e):
+   same error flag, and the two ID lists are permutations of each other. Skip mode: unconditionally. Measured mode: BECAUSE the model (like
+   the code since 915e48e) sorts the candidates before the stateful measuring loop; `measure` may use its state in any way. (Before that
+   fix the loop ran in map order and the statement was false of the code: 32 different results in 300 identical calls.) *)
+Theorem C14_order_blind : forall ord_n ord_u ord_q ord_n' ord_u' ord_q' fit St st0 measure L L' skip,
   (forall l, Permutation (ord_n l) l) -> (forall l, Permutation (ord_u l) l) -> (forall l, Permutation (ord_q l) l) ->
   (forall l, Permutation (ord_n' l) l) -> (forall l, Permutation (ord_u' l) l) -> (forall l, Permutation (ord_q' l) l) ->
   Permutation L L' ->
-  match corridor ord_n ord_u ord_q fit measure (Ok L) skip, corridor ord_n' ord_u' ord_q' fit measure (Ok L') skip with
+  match corridor ord_n ord_u ord_q fit St st0 measure (Ok L) skip, corridor ord_n' ord_u' ord_q' fit St st0 measure (Ok L') skip with
   | Ok r, Ok r' => Permutation r r'
   | Err, Err => True
   | _, _ => False
@@ -125,7 +141,9 @@ Print Assumptions C14_fitted_voxel_is_least_line_id.
 Theorem C14_fit_negative_clearance_error : forall fuel dx dy id c, (c <? 0)%float = true -> fit_model fuel dx dy id c = Some Err.
 Proof. exact fit_negative. Qed.
 Print Assumptions C14_fit_negative_clearance_error.
-(* an ID the vertex call refuses is an error for every clearance, clearance 0 included *)
+(* on the model: an ID the vertex call refuses is an error for every clearance, clearance 0 included. (In Go the shift runs before the
+   vertex call and spins for a NEGATIVE zoom field with a negative index, e.g. "-5/-2/0/0/0": zoom fields outside 0..35 together with
+   negative indices are outside the quantifier of C14/C15 and are not sent to the implementation.) *)
 Theorem C14_fit_malformed_id_error : forall fuel dx dy id c, vertex_ok id = false -> fit_model (S fuel) dx dy id c = Some Err.
 Proof. exact fit_malformed. Qed.
 Print Assumptions C14_fit_malformed_id_error.
@@ -170,10 +188,11 @@ Example C14_nonvacuous_loop :
 Proof. vm_compute. repeat split; reflexivity. Qed.
 
 (* ---- executable instance and run-time checker ---- *)
-(* the extracted model (balanced-tree sets) has the error flag and, up to order, the result of the model for every map order *)
+(* the extracted model (balanced-tree sets, filter = a function of the candidate alone) has the error flag and, up to order, the result of
+   the model with a state-free measuring loop, for every map order *)
 Theorem C14_executable_is_model : forall ord_n ord_u ord_q fit nearb line skip,
   (forall l, Permutation (ord_n l) l) -> (forall l, Permutation (ord_u l) l) -> (forall l, Permutation (ord_q l) l) ->
-  match corridor_exec fit nearb line skip, corridor ord_n ord_u ord_q fit (fun id => Ok (nearb id)) line skip with
+  match corridor_exec fit nearb line skip, corridor ord_n ord_u ord_q fit unit tt (stateless nearb) line skip with
   | Ok r, Ok r' => Permutation r r'
   | Err, Err => True
   | _, _ => False
@@ -193,11 +212,11 @@ Theorem C14_checker_sound : forall l h v zero H V o, okids l -> 0 <= H -> 0 <= V
 Proof. exact check_corridor_sound. Qed.
 Print Assumptions C14_checker_sound.
 (* and it asks no more than the theorems give: the model's own output is accepted (both modes, every map order and filter) *)
-Theorem C14_checker_accepts_model : forall ord_n ord_u ord_q fit measure l h v skip r p H V,
+Theorem C14_checker_accepts_model : forall ord_n ord_u ord_q fit St st0 measure l h v skip r p H V,
   (forall l, Permutation (ord_n l) l) -> (forall l, Permutation (ord_u l) l) -> (forall l, Permutation (ord_q l) l) ->
   valids l -> (forall i, In i l -> eh i = h /\ ev i = v) -> V <= 2 ^ 62 ->
   pick (map print_eid l) = Some p -> fit p = Ok (H, V) ->
-  corridor ord_n ord_u ord_q fit measure (Ok (map print_eid l)) skip = Ok r ->
+  corridor ord_n ord_u ord_q fit St st0 measure (Ok (map print_eid l)) skip = Ok r ->
   check_corridor h v ((H =? 0) && (V =? 0)) (map print_eid l) H V r = true.
 Proof. exact check_corridor_accepts_model. Qed.
 Print Assumptions C14_checker_accepts_model.
